@@ -94,7 +94,7 @@ def random_cases(ctx, start):
         elif choice == "badFlagValue":
             args, dmg = [cmd, rng.choice(["-sep=2", "-v=x", "-raw=maybe"])] + fl + ["-type=" + (good or ["A"])[0]], "badFlagValue"
         else:
-            args, dmg = [rng.choice(["gen", "NEW", "help", "-h"])] + ["-type=A"], "unknownSub"
+            args, dmg = [rng.choice(["gen", "NEW", "help", "News"])] + ["-type=A"], "unknownSub"
         cid = "r%d" % (start + i)
         x = ["case", cid, "cli18", ["cmd", cmd], ["damage", dmg]] + ([["outs"] + outs] if outs else [])
         out.append({"id": cid, "files": files, "runs": [{"args": args, "cwd": cwd}], "cwd": cwd, "damage": dmg, "sexp": sexp.dump(x),
